@@ -948,6 +948,8 @@ fc_statements = [
         name="c_char_*_result_buf_allocatable",
         buf_args=["context"],
         c_helper="ShroudTypeDefines",
+        c_impl_header=["<string.h>"],
+        cxx_impl_header=["<cstring>"],
         # Copy address of result into c_var and save length.
         # When returning a std::string (and not a reference or pointer)
         # an intermediate object is created to save the results
@@ -1788,6 +1790,8 @@ fc_statements = [
         mixin=[
             "c_mixin_cfi_character_arg",
         ],
+        c_impl_header=["<string.h>"],
+        cxx_impl_header=["<cstring>"],
         f_arg_decl=[        # replace mixin
             "character(len=:), intent({f_intent}), allocatable :: {c_var}",
         ],
@@ -1916,6 +1920,7 @@ fc_statements = [
         mixin=[
             "c_mixin_cfi_character_arg",
         ],
+        cxx_impl_header=["<cstring>"],
         f_arg_decl=[        # replace mixin
             "character(len=:), intent({f_intent}), allocatable :: {c_var}",
         ],
